@@ -15,11 +15,17 @@ EXPLANATION = ('MultipleUTube.u_tube_volumes, CoaxialPipe.concentric_tube_volume
                'borehole, pipe placement, pipe conductivity seed) run on symbolic radii; sqrt carries its defining equation. Asserted: '
                '2 pi r_i\'^2 = fluid volume and 2 pi (r_o\'^2 - r_i\'^2) = pipe-wall volume per metre, with the volumes written independently '
                'from the double-U / coaxial cross-sections; both legs of the equivalent tube lie inside the (possibly enlarged) borehole '
-               'and do not overlap; the seed conductivity reproduces the pipe resistance; SingleUTube.to_single returns the object itself.')
-OUTSIDE = ('NOT claimed: that the equivalent tube reproduces the combined convective-plus-pipe resistance and the effective borehole '
-           'resistance within 0.1 % - both are brentq root solves through pygfunction\'s Gnielinski/Colebrook correlation and the multipole '
-           'solution (fractional powers, iteration, complex arithmetic); not encodable, and that the brackets contain the roots is a '
-           'numerical fact.')
+               'and do not overlap; the seed conductivity reproduces the pipe resistance; SingleUTube.to_single returns the object itself. '
+               'Resistance matching: the real constructors, to_single, equivalent_single_u_tube, match_effective_borehole_resistance and '
+               'solve_root run on symbolic conductivities and flow over a contract model of pygfunction (delta circuit recomputed only by '
+               '__init__/update_thermal_resistances; effective resistance an uninterpreted function of those stored values, decreasing in '
+               'k_g). Asserted: the grout objective is strictly increasing in the trial conductivity; on bracketed paths the equivalent '
+               'tube reports the original\'s effective resistance, its R_fp equals convective + pipe resistance, and its stored delta '
+               'circuit, k_g, grout.k and pipe.k are the solved values.')
+OUTSIDE = ('NOT claimed: that the two root brackets ([k/100, 10k] for the pipe, [0.01, 7] for the grout) contain their roots - a numerical fact '
+           'about the Gnielinski/Colebrook correlation and the multipole solution, which are not encodable; pygfunction enters the '
+           'resistance-matching units only through the contract model stated under stubs. The 0.1 % figure is asserted as equality on '
+           'the paths where the root is bracketed (brentq abstracted as an exact root finder).')
 PI = math.pi
 
 
@@ -148,6 +154,227 @@ def to_single_fn(e):
     return B.REAL_SingleUTube.to_single(tok) is tok
 
 
+
+# ---------------------------------------------------------------------------------------------------------------------------------
+# resistance matching (the two root solves) under a contract model of pygfunction's pipe classes
+#
+# pygfunction contract used (read from pygfunction/pipes.py): the delta-circuit resistances `_Rd` are computed by __init__ and by
+# update_thermal_resistances(...) only, from (pos, r_out, r_b, k_s, self.k_g, R_fp[, R_ff]); _initialize_stored_coefficients()
+# only clears caches; effective_borehole_thermal_resistance(m_flow, cp) is a function of `_Rd`, the length and the flow. The
+# effective resistance is therefore modelled as an uninterpreted RBK(k_g, R_fp, R_ff, k_s, m_flow, object) *of the values `_Rd` was
+# last computed from*, positive and strictly decreasing in the grout conductivity (instances for the pairs that occur).
+RBK = z3.Function('RBK', z3.RealSort(), z3.RealSort(), z3.RealSort(), z3.RealSort(), z3.RealSort(), z3.IntSort(), z3.RealSort())
+GEOMS = {
+    # name: (kind, radii..., r_b)
+    'double_u_parallel': dict(kind='du', config='PARALLEL', r_in=0.0108, r_out=0.013335, s=0.0323, r_b=0.075),
+    'double_u_series': dict(kind='du', config='SERIES', r_in=0.01702, r_out=0.02108, s=0.02, r_b=0.07),
+    'double_u_tight': dict(kind='du', config='PARALLEL', r_in=0.016, r_out=0.02, s=0.018, r_b=0.05),      # equivalent tube does not fit: enlarged borehole
+    'coaxial': dict(kind='coax', r_inner=[0.0221, 0.025], r_outer=[0.0487, 0.055], r_b=0.07),
+}
+
+
+def _t(x):
+    return toreal(x.t) if isinstance(x, Sym) else toreal(lift(x))
+
+
+def rb_setup():
+    import pygfunction as gt
+    import ghedesigner.borehole_heat_exchangers as B
+    import ghedesigner.utilities as U
+    st = dict(calls=[], tags={}, hf={}, solves={})
+
+    def tag(obj):
+        return st['tags'].setdefault(id(obj), len(st['tags']))
+
+    def snap(self):
+        self._Rd = (self.k_g, self.R_fp, getattr(self, 'R_ff', 0.0), self.k_s, tag(self))
+
+    def init_single(self, pos, r_in, r_out, borehole, k_s, k_g, R_fp, J=2):
+        self.pos, self.r_in, self.r_out, self.b, self.k_s, self.k_g, self.R_fp, self.J, self.nPipes = pos, r_in, r_out, borehole, k_s, k_g, R_fp, J, 1
+        snap(self)
+
+    def init_multi(self, pos, r_in, r_out, borehole, k_s, k_g, R_fp, nPipes, config='parallel', J=2):
+        self.pos, self.r_in, self.r_out, self.b, self.k_s, self.k_g, self.R_fp, self.J, self.nPipes, self.config = pos, r_in, r_out, borehole, k_s, k_g, R_fp, J, nPipes, config
+        snap(self)
+
+    def init_coax(self, pos, r_in, r_out, borehole, k_s, k_g, R_ff, R_fp, J=2):
+        self.pos, self.r_in, self.r_out, self.b, self.k_s, self.k_g, self.R_ff, self.R_fp, self.J, self.nPipes = pos, r_in, r_out, borehole, k_s, k_g, R_ff, R_fp, J, 1
+        snap(self)
+
+    def update(self, *R):
+        self.R_fp = R[-1]
+        if len(R) == 2:
+            self.R_ff = R[0]
+        snap(self)
+
+    def effective(self, m_flow, cp):
+        e = E()
+        kg, rfp, rff, ks, tg = self._Rd
+        val = Sym(RBK(_t(kg), _t(rfp), _t(rff), _t(ks), _t(m_flow), z3.IntVal(tg)))
+        e.add(val.t > 0)
+        for (kg2, rfp2, rff2, ks2, tg2, m2, val2) in st['calls']:
+            if tg2 == tg:        # strictly decreasing in the grout conductivity, everything else equal
+                same = z3.And(_t(rfp) == _t(rfp2), _t(rff) == _t(rff2), _t(ks) == _t(ks2), _t(m_flow) == _t(m2))
+                e.add(z3.Implies(z3.And(same, _t(kg) < _t(kg2)), val.t > val2.t))
+                e.add(z3.Implies(z3.And(same, _t(kg) > _t(kg2)), val.t < val2.t))
+        st['calls'].append((kg, rfp, rff, ks, tg, m_flow, val))
+        return val
+
+    for cls, init in ((gt.pipes.SingleUTube, init_single), (gt.pipes.MultipleUTube, init_multi), (gt.pipes.Coaxial, init_coax)):
+        shadow(cls, '__init__', init)
+        shadow(cls, 'update_thermal_resistances', update)
+        shadow(cls, '_initialize_stored_coefficients', lambda self: None)
+        shadow(cls, 'effective_borehole_thermal_resistance', effective)
+
+    def hf(m_flow, r, *a):
+        key = (_t(m_flow).sexpr(), float(r))
+        if key not in st['hf']:
+            h = Sym(E().fresh('h_f'))
+            E().add(z3.And(h.t >= 10, h.t <= 100000))
+            st['hf'][key] = h
+        return st['hf'][key]
+
+    def hf_annulus(m_flow, r_a, r_b, *a):
+        return hf(m_flow, r_a), hf(m_flow, r_b)
+    shadow(gt.pipes, 'convective_heat_transfer_coefficient_circular_pipe', hf)
+    shadow(gt.pipes, 'convective_heat_transfer_coefficient_concentric_annulus', hf_annulus)
+    shadow(gt.pipes, 'conduction_thermal_resistance_circular_pipe', lambda r_in, r_out, k: math.log(r_out / r_in) / (2 * PI * k))
+
+    def brentq_stub(f, lo, hi, xtol=2e-12, rtol=8.9e-16, maxiter=100, **kw):
+        e = E()
+        x = Sym(e.fresh('root'))
+        e.add(z3.And(x.t >= _t(lo), x.t <= _t(hi)))
+        fx = f(x)                  # scipy's brentq returns the last iterate it evaluated
+        e.assume(fx == 0)          # root within xtol/rtol; abstracted as exact
+        st['solves'][f.__name__]['brentq'] = True
+        return x
+
+    def sign_int(x):
+        if isinstance(x, Sym):
+            return 1 if x > 0 else -1
+        return int(x)
+    shadow(U, 'brentq', brentq_stub)
+    shadow(U, 'int', sign_int)
+    shadow(B, 'deepcopy', _shallow)
+    shadow(B, 'RB_STATE', st)
+
+
+def _shallow(x):
+    import copy
+    return copy.copy(x)
+
+
+def rb_body(v, geom):
+    """returns dict of clause-name -> truth"""
+    import ghedesigner.borehole_heat_exchangers as B
+    import ghedesigner.utilities as U
+    from ghedesigner.borehole import GHEBorehole
+    from ghedesigner.enums import DoubleUTubeConnType
+    from ghedesigner.media import Grout, Pipe, Soil
+    g = GEOMS[geom]
+    sym = v.e is not None
+    k_g = v.real('k_g', 0.3, 3.5)
+    k_s = v.real('k_s', 0.5, 5.0)
+    k_p = v.real('k_p', 0.2, 1.0)
+    m = v.real('m_flow', 0.1, 1.5)
+    k1 = v.real('k1', 0.01, 7.0)
+    k2 = v.real('k2', 0.01, 7.0)
+    v.assume(k1 < k2)
+    if sym:
+        fluid = NS(cp=4182.0, mu=1e-3, rho=998.0, k=0.6)
+        bh = NS(H=100.0, D=2.0, r_b=g['r_b'], x=0.0, y=0.0)
+    else:
+        from ghedesigner.media import GHEFluid
+        fluid = GHEFluid(fluid_str='Water', percent=0.0)
+        bh = GHEBorehole(100.0, 2.0, g['r_b'], x=0.0, y=0.0)
+    soil, grout = Soil(k_s, 2343493.0, 18.3), Grout(k_g, 3901000.0)
+    if g['kind'] == 'du':
+        pipe = Pipe(Pipe.place_pipes(g['s'], g['r_out'], 2), g['r_in'], g['r_out'], g['s'], 1e-6, k_p, 1542000.0)
+        orig = B.MultipleUTube(m, fluid, bh, pipe, grout, soil, config=getattr(DoubleUTubeConnType, g['config']))
+    else:
+        pipe = Pipe((0, 0), list(g['r_inner']), list(g['r_outer']), 0, 1e-6, (k_p, k_p), 1542000.0)
+        orig = B.CoaxialPipe(m, fluid, bh, pipe, grout, soil)
+    rec = {}
+    real_solve = U.solve_root
+
+    def solve_spy(x, objective, lower=None, upper=None, **kw):
+        r = rec.setdefault(objective.__name__, {})
+        if sym:
+            B.RB_STATE['solves'][objective.__name__] = r
+        if objective.__name__ == 'objective_resistance':
+            o1, o2 = objective(k1), objective(k2)
+            r['monotone'] = o1 < o2
+        lo_v, hi_v = objective(lower), objective(upper)
+        v.assume((lo_v != 0) & (hi_v != 0))     # an objective exactly 0 at a bracket end divides by zero in solve_root: measure-zero float event, outside the claim
+        r['bracketed'] = ((lo_v < 0) & (hi_v > 0)) | ((lo_v > 0) & (hi_v < 0))
+        out = real_solve(x, objective, lower=lower, upper=upper, **kw)
+        r['returned'] = out
+        return out
+    saved = B.solve_root
+    B.solve_root = solve_spy
+    try:
+        single = orig.to_single()
+    finally:
+        B.solve_root = saved
+    rb_orig = orig.calc_effective_borehole_resistance()
+    rb_eq = single.calc_effective_borehole_resistance()
+    rp, rg = rec['objective_pipe_conductivity'], rec['objective_resistance']
+    if g['kind'] == 'du':
+        vf, vp, rconv, rpipe = orig.u_tube_volumes()
+    else:
+        vf, vp, rconv, rpipe = orig.concentric_tube_volumes()
+    target = rconv + rpipe
+    out = {}
+    if sym:
+        snap = single._Rd
+        out['objective_strictly_increasing_in_k_grout'] = rg['monotone']
+        out['stored_resistances_match_final_parameters'] = conj([snap[0] == single.grout.k, single.k_g == single.grout.k, snap[1] == single.R_fp])
+        out['rb_matched_when_root_bracketed'] = implies(rg['bracketed'], rb_eq == rb_orig)
+        out['grout_k_is_the_root'] = implies(rg['bracketed'], single.grout.k == rg['returned'])
+        out['rfp_matched_when_root_bracketed'] = implies(rp['bracketed'], single.R_fp == target)
+        out['pipe_k_consistent'] = implies(rp['bracketed'], single.pipe.k == rp['returned'])
+        out['same_flow_and_soil'] = conj([single.m_flow_borehole is m, single.soil is soil, single.grout is not grout, grout.k is k_g, orig.pipe.k is k_p or g['kind'] != 'du'])
+    else:
+        out['objective_strictly_increasing_in_k_grout'] = bool(rg['monotone'])
+        # what the delta circuit would be if it were recomputed from the tube's final parameters
+        before = rb_eq
+        single.update_thermal_resistances(single.R_fp)
+        after = single.calc_effective_borehole_resistance()
+        out['stored_resistances_match_final_parameters'] = abs(after - before) <= 1e-9 * abs(before) and single.k_g == single.grout.k
+        out['rb_matched_when_root_bracketed'] = (not rg['bracketed']) or abs(before - rb_orig) <= 1e-3 * rb_orig
+        out['grout_k_is_the_root'] = (not rg['bracketed']) or single.grout.k == rg['returned']
+        out['rfp_matched_when_root_bracketed'] = (not rp['bracketed']) or abs(single.R_fp - target) <= 1e-3 * target
+        out['pipe_k_consistent'] = (not rp['bracketed']) or abs(single.pipe.k - rp['returned']) <= 1e-5 * max(1.0, rp['returned'])
+        out['same_flow_and_soil'] = single.m_flow_borehole == m and single.soil is soil and single.grout is not grout and grout.k == k_g
+        out['_observed'] = dict(rb_original=rb_orig, rb_equivalent=before, rb_equivalent_recomputed=after, k_grout_equivalent=single.grout.k,
+                                 objective_at_k1_k2='constant' if not rg['monotone'] else 'increasing')
+    return out
+
+
+GROUT = ('objective_strictly_increasing_in_k_grout', 'stored_resistances_match_final_parameters', 'rb_matched_when_root_bracketed', 'grout_k_is_the_root')
+PIPE = ('rfp_matched_when_root_bracketed', 'pipe_k_consistent', 'same_flow_and_soil')
+
+
+def make_rb_fn(geom, names, twin=False):
+    def fn(e):
+        out = rb_body(V(e=e), geom)
+        if twin:
+            return False
+        bad = [n for n in names if out[n] is False]
+        e.notes['clauses'] = list(names)
+        return conj([out[n] for n in names])
+    return fn
+
+
+def make_rb_replay(geom, names):
+    def replay(model, notes):
+        restore_shadows()
+        out = rb_body(V(model=model), geom)
+        bad = [n for n in names if not out[n]]
+        return bool(bad), dict(failed=bad, observed=out.get('_observed'), inputs=model)
+    return replay
+
+
 def units(tier, seed):
     F = ['borehole_heat_exchangers.py:MultipleUTube.u_tube_volumes', 'borehole_heat_exchangers.py:CoaxialPipe.concentric_tube_volumes',
          'borehole_heat_exchangers.py:GHEDesignerBoreholeWithMultiplePipes.equivalent_single_u_tube', 'media.py:Pipe.place_pipes',
@@ -155,9 +382,27 @@ def units(tier, seed):
     ST = ['SingleUTube constructor -> recorder (pygfunction pipe model not built)', 'solve_root -> no-op (the two resistance matches are not claimed)',
           'sqrt with its defining equation d*d == x; log -> uninterpreted with product rule', 'deepcopy -> namespace copy']
     AS = ['floats as reals', 'radii ordered so that the geometry exists (r_in < r_out; coaxial r_in_in < r_in_out < r_out_in < r_out_out)']
+    F2 = ['borehole_heat_exchangers.py:MultipleUTube.__init__', 'borehole_heat_exchangers.py:MultipleUTube.to_single', 'borehole_heat_exchangers.py:CoaxialPipe.__init__',
+          'borehole_heat_exchangers.py:CoaxialPipe.to_single', 'borehole_heat_exchangers.py:SingleUTube.__init__',
+          'borehole_heat_exchangers.py:GHEDesignerBoreholeWithMultiplePipes.equivalent_single_u_tube',
+          'borehole_heat_exchangers.py:GHEDesignerBoreholeWithMultiplePipes.match_effective_borehole_resistance',
+          'borehole_heat_exchangers.py:*.calc_fluid_pipe_resistance', 'borehole_heat_exchangers.py:*.calc_effective_borehole_resistance', 'utilities.py:solve_root']
+    ST2 = ['pygfunction pipe classes (third party) -> contract model: _Rd is recomputed by __init__ / update_thermal_resistances only, from the attributes '
+           'of that moment; effective_borehole_thermal_resistance = uninterpreted RBK of those values, positive and strictly decreasing in k_g',
+           'pygfunction convection correlations -> abstract positive coefficient per (flow, radius); pipe conduction -> ln(ro/ri)/(2 pi k) exactly',
+           'scipy brentq -> returns a point of the bracket where the objective (evaluated there last) is 0', 'deepcopy -> shallow copy']
+    AS2 = ['floats as reals', 'objective not exactly 0 at a bracket end',
+           'that each bracket contains its root is a numerical fact about the correlations and is NOT claimed: the matches are asserted on the bracketed paths']
     return [
         Unit('double_u', make_fn(double_u_body), make_replay(double_u_body), setup, F, 'r_in in [5,30] mm, r_out in [6,40] mm, r_b in [40,150] mm, all reals (both fitting and non-fitting tubes)', AS, ST, max_seconds=600),
         Unit('coaxial', make_fn(coaxial_body), make_replay(coaxial_body), setup, F, 'four coaxial radii and r_b, all reals within mm-scale ranges', AS, ST, max_seconds=600),
         Unit('single_to_single', to_single_fn, None, setup, F[4:], 'any object'),
+    ] + [
+        Unit('%s_%s' % (pre, geom), make_rb_fn(geom, names), make_rb_replay(geom, names), rb_setup, F2,
+             'geometry %s concrete; grout k in [0.3,3.5], soil k in [0.5,5], pipe k in [0.2,1], mass flow in [0.1,1.5] kg/s, trial conductivities '
+             'k1 < k2 in [0.01,7], convection coefficients (abstract) in [10,1e5]: all reals' % geom, AS2, ST2, max_seconds=600)
+        for geom in GEOMS for pre, names in (('grout_solve', GROUT), ('pipe_solve', PIPE))
+    ] + [
+        Unit('twin_reachability_rb', make_rb_fn('double_u_parallel', GROUT, twin=True), None, rb_setup, F2, 'assert False must be violated', expect_cex=True),
         Unit('twin_reachability', make_fn(double_u_body, twin=True), None, setup, F, 'assert False must be violated', expect_cex=True),
     ]
